@@ -29,6 +29,8 @@ type C16Case struct {
 	Arg   int       `json:"arg,omitempty"`  // truncate / insertWordBreaks limit
 	Ell   int       `json:"ell,omitempty"`  // truncate: 0 default, 1 true, 2 false
 	Then  string    `json:"then,omitempty"` // a second directive chained after the first ("" = none)
+	// ThenArg: the argument of the second directive when it takes one (insertWordBreaks)
+	ThenArg int `json:"then_arg,omitempty"`
 	JS    bool      `json:"js,omitempty"`   // check the JavaScript counterpart instead of the Go directive
 	// InLoop: the print command runs in the second iteration of a loop, after an iteration with another
 	// value and another limit; the limit is an expression over the loop variable
@@ -96,7 +98,10 @@ func genC16(t *rapid.T) C16Case {
 	c.InLoop = !c.JS && rapid.IntRange(0, 3).Draw(t, "inLoop") == 0
 	c.InMsg = !c.JS && !c.InLoop && rapid.IntRange(0, 3).Draw(t, "inMsg") == 0 && !strings.ContainsAny(c.Value.S, "«»") && !strings.Contains(c.Value.S, c16Sep)
 	if rapid.IntRange(0, 4).Draw(t, "chain") == 0 && c.Dir == "truncate" && !c.JS {
-		c.Then = rapid.SampledFrom([]string{"escapeUri", "escapeJsString", "changeNewlineToBr", "escapeHtml"}).Draw(t, "then")
+		c.Then = rapid.SampledFrom([]string{"escapeUri", "escapeJsString", "changeNewlineToBr", "escapeHtml", "insertWordBreaks", "insertWordBreaks"}).Draw(t, "then")
+		if c.Then == "insertWordBreaks" {
+			c.ThenArg = rapid.IntRange(1, 60).Draw(t, "thenArg") // (a number of its own, next to the limit of truncate)
+		}
 	}
 	return c
 }
@@ -113,7 +118,9 @@ func (c C16Case) directives() []ref.Directive {
 		d.Args = []*ref.Expr{intE(c.Arg)}
 	}
 	ds := []ref.Directive{d}
-	if c.Then != "" {
+	if c.Then == "insertWordBreaks" {
+		ds = append(ds, ref.Directive{Name: c.Then, Args: []*ref.Expr{intE(c.ThenArg)}})
+	} else if c.Then != "" {
 		ds = append(ds, ref.Directive{Name: c.Then})
 	}
 	return ds
@@ -459,6 +466,22 @@ func checkC16(c C16Case) Verdict {
 			return excluded("chained changeNewlineToBr on text with line breaks or NUL")
 		}
 		pre = htmlDecode(out)
+	case "insertWordBreaks":
+		// (break opportunities are all it adds; each of the two directives has a number of its own)
+		if strings.IndexByte(text, 0) >= 0 || strings.ContainsAny(text, "&<>\"'") {
+			return excluded("chained insertWordBreaks on text with markup characters or NUL")
+		}
+		pre = strings.ReplaceAll(out, "<wbr>", "")
+		run := 0
+		for _, r := range strings.ReplaceAll(out, "<wbr>", "\x00") {
+			if r == 0 || r == ' ' || r == '\t' || r == '\n' || r == '\r' {
+				run = 0
+				continue
+			}
+			if run++; run > c.ThenArg {
+				return fail("chained insertWordBreaks:%d leaves a run of more than %d characters without a break opportunity", c.ThenArg, c.ThenArg)
+			}
+		}
 	}
 	nt := false
 	switch c.Dir {
@@ -601,6 +624,8 @@ func normNumbers(v interface{}) interface{} {
 }
 
 func TestC16(t *testing.T) {
+	fileRoute = true
+	defer func() { fileRoute = false }()
 	defer theNode.stop()
 	runProp(t, "C16", genC16, checkC16)
 }
